@@ -2030,7 +2030,10 @@ static double eval_double(Node *node) {
 // However, if a given expression is of form `A.x op= C`, the input is
 // converted to `tmp = &A, (*tmp).x = (*tmp).x op C` to handle assignments
 // to bitfields.
-static Node *to_assign(Node *binary) {
+//
+// If `ret_old` is true and A is atomic, the resulting expression yields
+// the value A held before the operation (used for postfix ++ and --).
+static Node *to_assign2(Node *binary, bool ret_old) {
   add_type(binary->lhs);
   add_type(binary->rhs);
   Token *tok = binary->tok;
@@ -2115,7 +2118,8 @@ static Node *to_assign(Node *binary) {
     loop->cond = new_unary(ND_NOT, cas, tok);
 
     cur = cur->next = loop;
-    cur = cur->next = new_unary(ND_EXPR_STMT, new_var_node(new, tok), tok);
+    cur = cur->next = new_unary(ND_EXPR_STMT,
+                                new_var_node(ret_old ? old : new, tok), tok);
 
     Node *node = new_node(ND_STMT_EXPR, tok);
     node->body = head.next;
@@ -2138,6 +2142,10 @@ static Node *to_assign(Node *binary) {
                tok);
 
   return new_binary(ND_COMMA, expr1, expr2, tok);
+}
+
+static Node *to_assign(Node *binary) {
+  return to_assign2(binary, false);
 }
 
 // assign    = conditional (assign-op assign)?
@@ -2790,6 +2798,14 @@ static Node *struct_ref(Node *node, Token *tok) {
 // Convert A++ to `(typeof A)((A += 1) - 1)`
 static Node *new_inc_dec(Node *node, Token *tok, int addend) {
   add_type(node);
+
+  // For an atomic operand take the old value from the compare-and-swap
+  // loop itself; `(A += 1) - 1` is not the old value for _Bool or for
+  // floating values too large to represent A+1 exactly.
+  if (node->ty->is_atomic)
+    return new_cast(to_assign2(new_add(node, new_num(addend, tok), tok), true),
+                    node->ty);
+
   return new_cast(new_add(to_assign(new_add(node, new_num(addend, tok), tok)),
                           new_num(-addend, tok), tok),
                   node->ty);
